@@ -243,6 +243,16 @@ func c01Cases(thorough bool, emit func(cs c01Case, content []byte)) {
 		}
 		emit(c01Case{Content: s, M: 1024, LogLevel: "info"}, []byte(s))
 	})
+	// file signatures at the very start of the content (byte order marks, the magic numbers of the
+	// compressed formats inside a file whose name says "plain", script and archive headers): dcat
+	// has to hand them on like any other bytes, in a plain file as well as inside a compressed one
+	for _, magic := range []string{"\xef\xbb\xbf", "\xff\xfe", "\xfe\xff", "\xef\xbb", "\x1f\x8b", "\x1f\x8b\x08\x00", "\x28\xb5\x2f\xfd", "#!", "PK\x03\x04", "\x7fELF", "\xef\xbb\xbf\xef\xbb\xbf"} {
+		for _, rest := range []string{"", "\n", "time,host\n1,a\n", "x\n" + magic + "y\n" + magic} {
+			for _, enc := range []string{"", "gz", "zst"} {
+				emit(c01Case{Desc: fmt.Sprintf("content starts with the signature %q, then %q", magic, rest), M: 1024, Encoding: enc, LogLevel: "error"}, []byte(magic+rest))
+			}
+		}
+	}
 	// features of the compressed formats
 	for _, content := range []string{"a\nbb\nccc\n", "first line\nsecond line without newline", strings.Repeat("0123456789 a longer file\n", 700), "x", ""} {
 		for _, enc := range []string{"gz:members=2", "gz:members=3", "gz:empty-first-member", "gz:header", "gz:stored", "zst:frames=2", "zst:frames=3"} {
